@@ -36,7 +36,7 @@ Lemma eq_bool A B :
   all2 list_eqb_num (gather [] (jnc A) (argsort (n_ids A))) (gather [] (jnc B) (argsort (n_ids B))) &&
   basis_eq bcl (basis A) (basis B).
 Proof.
-  unfold eq, jcc, jnc, jdt.
+  unfold eq, eq_with, jcc, jnc, jdt.
   destruct (join_equal_segments fadd A) as [[ccA ncA] dtA].
   destruct (join_equal_segments fadd B) as [[ccB ncB] dtB]. cbn [fst snd].
   repeat match goal with
@@ -46,13 +46,19 @@ Proof.
 Qed.
 
 (* ------------------------------------------------------------------ lengths *)
+Lemma drop_zero_rows_length p : length (c_coeffs (drop_zero p)) = length (c_coeffs p) /\ length (n_coeffs (drop_zero p)) = length (n_coeffs p).
+Proof.
+  unfold drop_zero. destruct (existsb _ _ && negb (forallb _ _)); cbn [c_coeffs n_coeffs]; rewrite ?map_length; auto.
+Qed.
 Lemma jcc_length p : length (jcc p) = length (c_coeffs p).
 Proof.
-  unfold jcc, join_equal_segments. destruct (equal_ind p); cbn [fst snd]; auto. apply map_length.
+  unfold jcc, join_equal_segments, join_core. rewrite <- (proj1 (drop_zero_rows_length p)).
+  destruct (equal_ind (drop_zero p)); cbn [fst snd]; auto. apply map_length.
 Qed.
 Lemma jnc_length p : length (jnc p) = length (n_coeffs p).
 Proof.
-  unfold jnc, join_equal_segments. destruct (equal_ind p); cbn [fst snd]; auto. apply map_length.
+  unfold jnc, join_equal_segments, join_core. rewrite <- (proj2 (drop_zero_rows_length p)).
+  destruct (equal_ind (drop_zero p)); cbn [fst snd]; auto. apply map_length.
 Qed.
 
 Lemma gather_argsort_inj {A} (d : A) (l l' : list A) ids :
@@ -343,3 +349,39 @@ Theorem eq_detects_basis A B : basis_eq bcl (basis A) (basis B) = false -> eq fa
 Proof. intros H. rewrite eq_bool, H. apply andb_false_r. Qed.
 
 End E.
+
+(* ------------------------------------------------------------------ a changed coefficient, pulses without merges *)
+Section Unmerged.
+Variable fadd : num -> num -> num.
+Variable close : nat -> num -> num -> bool.
+Variable bcl : nat -> cnum -> cnum -> bool.
+
+(* no zero-duration segment and no two equal consecutive segments: the joined arrays are the stored ones *)
+Definition unmerged (p : pulse) : Prop :=
+  forallb (fun b => b) (map nonzero_dt (dt p)) = true /\ nonzero (equal_mask p) = [].
+
+Lemma unmerged_join p : unmerged p -> join_equal_segments fadd p = (c_coeffs p, n_coeffs p, dt p).
+Proof.
+  intros [H1 H2]. unfold join_equal_segments, drop_zero. rewrite H1. rewrite andb_false_r.
+  unfold join_core, equal_ind. rewrite H2. reflexivity.
+Qed.
+
+Theorem eq_detects_coefficient A B : wf A -> wf B -> unmerged A -> unmerged B ->
+  c_ids A = c_ids B -> n_ids A = n_ids B ->
+  c_coeffs A <> c_coeffs B \/ n_coeffs A <> n_coeffs B -> eq fadd close bcl A B = false.
+Proof.
+  intros WA WB UA UB Hci Hni Hdiff. destruct (eq fadd close bcl A B) eqn:E; auto. exfalso.
+  apply (eq_char fadd close bcl A B WA WB) in E. destruct E as (_ & _ & Hc & Hn & _).
+  unfold sorted_view, jcc, jnc in *. rewrite (unmerged_join A UA), (unmerged_join B UB) in *. cbn [fst snd] in *.
+  destruct WA as (A1 & A2 & A3 & A4 & _). destruct WB as (B1 & B2 & B3 & B4 & _).
+  assert (Hc3 := f_equal snd Hc). assert (Hn3 := f_equal snd Hn). cbn [snd] in Hc3, Hn3.
+  rewrite <- Hci in Hc3. rewrite <- Hni in Hn3.
+  assert (LC : length (c_opers A) = length (c_opers B)).
+  { assert (Hc1 := f_equal (fun x => length (fst (fst x))) Hc). cbn [fst] in Hc1. rewrite !gather_length, !argsort_length in Hc1. lia. }
+  assert (LN : length (n_opers A) = length (n_opers B)).
+  { assert (Hn1 := f_equal (fun x => length (fst (fst x))) Hn). cbn [fst] in Hn1. rewrite !gather_length, !argsort_length in Hn1. lia. }
+  destruct Hdiff as [Hd | Hd]; apply Hd.
+  - apply (gather_argsort_inj [] _ _ (c_ids A)); [lia | lia | exact Hc3].
+  - apply (gather_argsort_inj [] _ _ (n_ids A)); [lia | lia | exact Hn3].
+Qed.
+End Unmerged.
